@@ -42,10 +42,12 @@ VARIABLES
   mtrack,    \* membership call -> [node, idx, term, st] : the entry it appended and what became of it
   mwait,     \* node -> membership op invoked there whose entry has not been seen yet
   finals,    \* node -> `final' event of the heal phase
+  healed,    \* the fault-free period has begun (deliveries are concurrent from here on)
+  s5,        \* signature of known finding S5 occurred in this scenario (see KF_S5)
   bad        \* set of violation records
 
 vars == <<l, meta, dur, pstate, maxterm, votes, applied, cursor, leaders, lfirst, committed,
-          reqs, hpre, stat, inv, wdone, rdone, retd, dead, mtrack, mwait, finals, bad>>
+          reqs, hpre, stat, inv, wdone, rdone, retd, dead, mtrack, mwait, finals, healed, s5, bad>>
 
 -----------------------------------------------------------------------------
 Ev == Trace[l]
@@ -490,6 +492,56 @@ C09_FutureTruth ==
     ELSE {}
 
 -----------------------------------------------------------------------------
+(* C09 -- membership *)
+CommittedCfgIdx == {i \in DOMAIN committed : committed[i].k = 2}
+MaxCommittedCfg == IF CommittedCfgIdx = {} THEN 0 ELSE CHOOSE i \in CommittedCfgIdx : \A j \in CommittedCfgIdx : j <= i
+
+\* Signature of known finding S5: a node starts leading while the configuration it has in
+\* force is older than a configuration entry that is already committed (followers adopt a
+\* configuration when they apply it, the leader when it appends it; two configurations apart
+\* the quorums need not intersect).  From that event on, the safety clauses of the scenario
+\* are attributed to S5.
+KF_S5 == /\ NewLeader /\ ~Is("send")
+         /\ (IF Is("status") THEN Ev.cfg.i
+             ELSE IF LeadEv[1] \in DOMAIN stat THEN stat[LeadEv[1]].cfg.i ELSE MaxCommittedCfg) < MaxCommittedCfg
+
+\* all nodes apply the same sequence of configurations: a node's commit index never covers a
+\* configuration entry that differs from the one first committed at that index
+C09_CfgAgreement ==
+  IF ~Is("status") THEN {} ELSE
+    LET lg == Log(Ev.node)
+        diff == {i \in CommittedCfgIdx : i <= Ev.commit /\ HasIdx(lg, i) /\ At(lg, i) # committed[i]} IN
+    IF diff # {} THEN {V("C09", "ConfigurationsDiverge", <<Ev.node, diff>>)} ELSE {}
+
+CfgVoters(n) == IF n \in DOMAIN stat THEN Range(stat[n].cfg.v) ELSE {}
+
+\* a new leader was voted for by a majority of the voters of its configuration in force
+C09_LeaderVotes ==
+  IF ~(OwnNoop /\ ~healed /\ Ev.node \in DOMAIN stat) THEN {} ELSE
+    LET n == Ev.node  t == Ev.entries[1].t
+        granters == {w[1] : w \in {x \in votes : x[2] = t /\ x[3] = n}} \cup {n}
+        vs == CfgVoters(n) IN
+    IF vs # {} /\ ~Majority(granters, vs)
+      THEN {V("C09", "LeaderWithoutVoterMajority", <<n, t, granters, vs>>)} ELSE {}
+
+\* vote requests go to voters only
+C09_VoteRequests ==
+  IF ~(Is("send") /\ Ev.kind = "rv" /\ ~Has("dupof") /\ ~healed /\ Ev.from \in DOMAIN stat) THEN {} ELSE
+    IF Ev.to \notin CfgVoters(Ev.from) THEN {V("C09", "VoteRequestToNonVoter", <<Ev.from, Ev.to, CfgVoters(Ev.from)>>)} ELSE {}
+
+\* when a leader's commit index passes i, entry i is durable on a majority of the voters of
+\* its configuration in force (now or at its previous status report)
+C09_CommitMajority ==
+  IF ~(Is("status") /\ Ev.role = 0 /\ ~healed /\ Ev.node \in DOMAIN stat /\ stat[Ev.node].role = 0
+       /\ stat[Ev.node].term = Ev.term /\ Ev.commit > stat[Ev.node].commit) THEN {} ELSE
+    LET lg == Log(Ev.node)
+        news == {i \in (stat[Ev.node].commit + 1)..Ev.commit : HasIdx(lg, i)}
+        holders(i) == {m \in DOMAIN dur : HasIdx(dur[m], i) /\ At(dur[m], i) = At(lg, i)}
+        okcfg(i, vs) == vs # {} /\ Majority(holders(i), vs)
+        badIdx == {i \in news : ~okcfg(i, Range(Ev.cfg.v)) /\ ~okcfg(i, CfgVoters(Ev.node))} IN
+    IF badIdx # {} THEN {V("C09", "CommitWithoutVoterMajority", <<Ev.node, badIdx, Range(Ev.cfg.v)>>)} ELSE {}
+
+-----------------------------------------------------------------------------
 Recorder ==   \* recorder / reconstruction sanity: reported separately, never as a property violation
   (IF Is("log_append") /\ ~Has("err") /\ ~AppendContiguous(Log(Ev.node))
      THEN {V("X", "AppendNotContiguous", <<Ev.node>>)} ELSE {})
@@ -507,7 +559,14 @@ NewBad ==
              \cup C03_FutureTruth \cup C03_AtMostOnce \cup C03_RealTime \cup C03_NoInvention
              \cup C04_AckDurable \cup C04_Replay \cup C05_Reads \cup C14_Abort \cup C18_Panic \cup Recorder
              \cup C15_Converge \cup C18_Futures \cup C09_FutureTruth
-  IN {b \in all : b.p \in Props \/ b.p \in {"X", "W"}}
+             \cup C09_CfgAgreement \cup C09_LeaderVotes \cup C09_VoteRequests \cup C09_CommitMajority
+      \* violations of the replication-safety clauses after the S5 signature carry its tag
+      tagged == {IF (s5 \/ KF_S5) /\ b.p \in {"C01", "C02", "C03", "C04", "C05", "C07", "C09"}
+                      /\ b.c \in {"SMSafety", "LeaderCompleteness", "FutureWrongPosition", "FutureWrongResult", "AppliedNotOnMajorityDisk",
+                                  "AckNotOnMajorityDisk", "CommittedTruncated", "StaleRead", "ReadWentBackwards", "ConfigurationsDiverge",
+                                  "CommitWithoutVoterMajority", "RealTimeOrder", "AppliedTwice", "LeaderWithoutVoterMajority", "ElectionSafety"}
+                   THEN [b EXCEPT !.kf = "S5"] ELSE b : b \in all}
+  IN {b \in tagged : b.p \in Props \/ b.p \in {"X", "W"}}
 
 Report(S) == \A b \in S : PrintT("MONITOR-BAD|" \o b.p \o "|" \o b.c \o "|" \o b.sc \o "|" \o ToString(b.line)
                                    \o "|" \o b.kf \o "|" \o b.d)
@@ -517,7 +576,7 @@ Init ==
   /\ dur = <<>> /\ pstate = <<>> /\ maxterm = <<>> /\ votes = {} /\ applied = <<>> /\ cursor = <<>>
   /\ leaders = <<>> /\ lfirst = {} /\ committed = <<>> /\ reqs = <<>> /\ hpre = <<>> /\ stat = <<>>
   /\ inv = <<>> /\ wdone = {} /\ rdone = {} /\ retd = {} /\ dead = {} /\ mtrack = <<>> /\ mwait = <<>>
-  /\ finals = <<>> /\ bad = {}
+  /\ finals = <<>> /\ healed = FALSE /\ s5 = FALSE /\ bad = {}
 
 Next ==
   /\ l <= Len(Trace)
@@ -546,6 +605,8 @@ Next ==
   /\ mtrack' = NextMtrack
   /\ mwait' = NextMwait
   /\ finals' = (IF Is("scenario") THEN <<>> ELSE IF Is("final") THEN Put(finals, Ev.node, Ev) ELSE finals)
+  /\ healed' = (IF Is("scenario") THEN FALSE ELSE IF Is("heal") THEN TRUE ELSE healed)
+  /\ s5' = (IF Is("scenario") THEN FALSE ELSE s5 \/ KF_S5)
 
 Spec == Init /\ [][Next]_vars
 
